@@ -82,9 +82,13 @@ def handleC01 (args impl : List String) : Option String :=
       | none => none
       | some rs =>
         let m := runM (match daySchedule ctx e d with | .ok s => .ok (showRanges s) | .error p => .error p)
-        if !(OH.Spec.tilesFrom 0 rs) then some s!"fail tiling model={joinSp m}"
+        if !(OH.Spec.exprDefined e) then
+          (if sameOut m res then some "ok undefined-range" else some s!"disagree model={joinSp m}")
+        else if !(OH.Spec.tilesFrom 0 rs) then some s!"fail tiling model={joinSp m}"
         else match OH.Spec.c01Mismatch ctx e d rs with
-          | some mm => some s!"fail spec minute={mm} spec={kindTok (OH.Spec.dayState ctx e d mm)} model={joinSp m}"
+          | some mm =>
+            let cls := if OH.Spec.exprWindowRisk e then " class=D20-dated-window" else ""
+            some s!"fail spec{cls} minute={mm} spec={kindTok (OH.Spec.dayState ctx e d mm)} model={joinSp m}"
           | none =>
             if sameOut m res then
               some ("ok " ++ (match res with | ["1", _, _, "c", "0"] => "allclosed" | _ => exprTag e))
